@@ -81,7 +81,49 @@ def write_inst_acc():
         fl = "fns_" + re.sub(r"[^A-Za-z0-9_]", "_", os.path.splitext(os.path.basename(f["file"]))[0])
         src.append("theorem acc_%s : checkAccessors Gen.%s Gen.Cir.%s = true := by decide +kernel" % (n, n, fl))
         names.append("O1722.Inst.Acc.acc_%s" % n)
-    src += ["", "end O1722.Inst.Acc", ""]
+    # C17 at code level: one instance per pair of views of the same octets (the generic theorem is
+    # C17_code_views); getter indices are read from the regenerated Gen/Data.lean
+    data = open(os.path.join(LEAN, "O1722", "Gen", "Data.lean")).read()
+
+    def getter_index(fmt, fn):
+        m = re.search(r"^def %s : GenFormat where(.*?)(?=^def |\Z)" % fmt, data, re.S | re.M)
+        if not m:
+            return None, None
+        gm = re.search(r"getters := \[(.*?)\]\n  setters", m.group(1), re.S)
+        fm = re.search(r'file := "([^"]+)"', m.group(1))
+        if not gm or not fm:
+            return None, None
+        fns_ = re.findall(r'\{ fn := "(\w+)"', gm.group(1))
+        fl = "fns_" + re.sub(r"[^A-Za-z0-9_]", "_", os.path.splitext(os.path.basename(fm.group(1)))[0])
+        return (fns_.index(fn) if fn in fns_ else None), fl
+    pairs = [("commonHeader", "Avtp_CommonHeader_GetSubtype", "tscf", "Avtp_Tscf_GetSubtype"),
+             ("commonHeader", "Avtp_CommonHeader_GetVersion", "ntscf", "Avtp_Ntscf_GetVersion"),
+             ("acfCommon", "Avtp_AcfCommon_GetAcfMsgLength", "vss", "Avtp_Vss_GetAcfMsgLength"),
+             ("acfCommon", "Avtp_AcfCommon_GetAcfMsgLength", "can", "Avtp_Can_GetAcfMsgLength"),
+             ("aaf", "Avtp_Aaf_GetStreamId", "pcm", "Avtp_Pcm_GetStreamId")]
+    view_src = []
+    for a, fa, b, fb in pairs:
+        ia, fla = getter_index(a, fa)
+        ib, flb = getter_index(b, fb)
+        if ia is None or ib is None:
+            continue
+        nm = "views_%s_%s" % (fa, fb)
+        view_src.append("theorem %s (e : Endian) (glob : String → Nat) (rom : Nat → Byte) (tb1 tb2 : Nat) (hrom1 : RomTable rom tb1 Gen.%s.table) "
+                        "(hrom2 : RomTable rom tb2 Gen.%s.table) (hg1 : glob Gen.%s.tableName = tb1) (hg2 : glob Gen.%s.tableName = tb2) "
+                        "(p : Nat) (hp0 : p ≠ 0) (hpb : p + 1024 ≤ 18446744073709551616) (m : Mem) :" % (nm, a, b, a, b))
+        view_src.append("    ∃ F1 ∈ Gen.Cir.%s, ∃ F2 ∈ Gen.Cir.%s, F1.name = (Gen.%s.getters[%d]'(by decide)).fn ∧ F2.name = (Gen.%s.getters[%d]'(by decide)).fn ∧"
+                        % (fla, flb, a, ia, b, ib))
+        view_src.append("      (exec (mkEnv e rom glob) 31 F1.body (mkFrame [p, 0]) ⟨m, []⟩).map (fun r => (r.1, r.2.2.mem))")
+        view_src.append("        = (exec (mkEnv e rom glob) 31 F2.body (mkFrame [p, 0]) ⟨m, []⟩).map (fun r => (r.1, r.2.2.mem)) :=")
+        view_src.append("  C17_code_views e glob rom Spec.%s Spec.%s Gen.%s Gen.%s Gen.Cir.%s Gen.Cir.%s tb1 tb2 hrom1 hrom2 (by decide) (by decide) hg1 hg2 acc_%s acc_%s"
+                        % (a, b, a, b, fla, flb, a, b))
+        view_src.append("    (by decide +kernel) (by decide +kernel) (Gen.%s.getters[%d]'(by decide)) (List.getElem_mem _) (by decide) (Gen.%s.getters[%d]'(by decide)) (List.getElem_mem _) (by decide)"
+                        % (a, ia, b, ib))
+        view_src.append("    (by decide) p hp0 hpb m")
+        view_src.append("")
+        names.append("O1722.Inst.Acc." + nm)
+    src = [x.replace("import O1722.Refine.AccessorsFormat", "import O1722.Refine.AccessorsFormat\nimport O1722.Refine.Views") for x in src]
+    src += ["", "open O1722.C in", "section", "open O1722.C"] + view_src + ["end", "", "end O1722.Inst.Acc", ""]
     with common.Lock("lake"):
         write_if_changed(os.path.join(LEAN, "O1722", "Gen", "InstAcc.lean"), "\n".join(src))
     return names
@@ -443,6 +485,10 @@ CODE_LEVEL = {
             "(full and abbreviated ACF-CAN builders; the abbreviated one also returns the padded length); read-back of the payload "
             "length through the C text of Avtp_Can_GetCanPayloadLength and its two dedicated getters: PARTIAL (headers whose int "
             "arithmetic does not go negative)"),
+    "C17": (["O1722.Gen.InstAcc"], ["O1722.Refine.C17_code_views", "O1722.Refine.C01_code_dedicated"],
+            "the C text of two dedicated getters of two formats whose Spec fields are the same wire bits returns the same value on the "
+            "same memory (generic C17_code_views; instances views_<getterA>_<getterB> for subtype / version through the common header "
+            "and TSCF / NTSCF, acf_msg_length through ACF common and VSS / CAN, stream_id through AAF and AAF-PCM)"),
     "C03": (["O1722.Refine.Props", "O1722.CSem.Frame", "O1722.Refine.CanLen"],
             ["O1722.Refine.C01_code", "O1722.Refine.C02_code", "O1722.C.exec_frame", "O1722.C.callFn_frame", "O1722.Refine.C03_code_payload"],
             "every access of the C text of Avtp_GetField/SetField lies in a quadlet the field occupies; and for EVERY function of the "
